@@ -22,6 +22,7 @@ fn replay_fn(prop: &str) -> Option<fn(&str, &serde_json::Value) -> Verdict> {
         "C10" => Some(props::c10::replay),
         "C11" => Some(props::c11::replay),
         "C12" => Some(props::c12::replay),
+        "C13" => Some(props::c13::replay),
         "C14" => Some(props::c14::replay),
         "C15" => Some(props::c15::replay),
         "C16" => Some(props::c16::replay),
@@ -68,6 +69,7 @@ fn main() {
                 "C10" => props::c10::run(&ctx),
                 "C11" => props::c11::run(&ctx),
                 "C12" => props::c12::run(&ctx),
+                "C13" => props::c13::run(&ctx),
                 "C14" => props::c14::run(&ctx),
                 "C15" => props::c15::run(&ctx),
                 "C16" => props::c16::run(&ctx),
